@@ -115,6 +115,44 @@ func (e *Engine) errorsIs(err, target IfaceV) bool {
 	return false
 }
 
+// condLocker returns the Locker stored in field L of a sync.Cond cell.
+func (e *Engine) condLocker(c *Cell) (IfaceV, bool) {
+	st, ok := c.typ.Underlying().(*types.Struct)
+	if !ok {
+		return IfaceV{}, false
+	}
+	for i := 0; i < st.NumFields(); i++ {
+		if st.Field(i).Name() == "L" {
+			l, ok := c.kids[i].v.(IfaceV)
+			return l, ok && l.t != nil
+		}
+	}
+	return IfaceV{}, false
+}
+
+// callIfaceMethod calls the niladic method name of the dynamic value of an interface.
+func (e *Engine) callIfaceMethod(v IfaceV, name string) {
+	sel := e.prog.MethodSets.MethodSet(v.t).Lookup(nil, name)
+	if sel == nil {
+		e.fail("method %s not found on %v", name, v.t)
+	}
+	fn := e.prog.MethodValue(sel)
+	if fn == nil {
+		e.fail("method %s of %v has no body", name, v.t)
+	}
+	e.invokeFuncV(FuncV{fn: fn}, []Value{v.v}, 0)
+}
+
+// lockHeldElsewhere: a queued goroutine (vGoLive / vGo) that meets a lock which is held parks
+// there, like at any other blocking operation (the holder is the parked harness goroutine or
+// an earlier parked goroutine; a parked goroutine is not resumed). On the harness goroutine
+// itself a held lock is a self-deadlock and stays a verification condition.
+func (e *Engine) lockHeldElsewhere() {
+	if e.inGoroutine > 0 {
+		panic(goParked{})
+	}
+}
+
 func (e *Engine) ghostOf(c *Cell) *ghostState {
 	g, ok := e.ghost[c]
 	if !ok {
@@ -450,6 +488,7 @@ func init() {
 		"(*sync.Mutex).Lock": func(e *Engine, fn *ssa.Function, a []Value) Value {
 			g := e.ghostOf(a[0].(Ptr).c)
 			if g.locked > 0 {
+				e.lockHeldElsewhere()
 				e.vc(e.ts.True, "deadlock: sync.Mutex locked while already held on this path")
 			}
 			g.locked = 1
@@ -474,6 +513,7 @@ func init() {
 		"(*sync.RWMutex).Lock": func(e *Engine, fn *ssa.Function, a []Value) Value {
 			g := e.ghostOf(a[0].(Ptr).c)
 			if g.locked > 0 || g.readers > 0 {
+				e.lockHeldElsewhere()
 				e.vc(e.ts.True, "deadlock: sync.RWMutex.Lock while already held on this path")
 			}
 			g.locked = 1
@@ -498,6 +538,7 @@ func init() {
 		"(*sync.RWMutex).RLock": func(e *Engine, fn *ssa.Function, a []Value) Value {
 			g := e.ghostOf(a[0].(Ptr).c)
 			if g.locked > 0 {
+				e.lockHeldElsewhere()
 				e.vc(e.ts.True, "deadlock: sync.RWMutex.RLock while write-held on this path")
 			}
 			g.readers++
@@ -532,6 +573,27 @@ func init() {
 			return Ptr{c: c}
 		},
 		"(*sync.Cond).Wait": func(e *Engine, fn *ssa.Function, a []Value) Value {
+			// With goroutines queued (vGoLive / vGo) the harness goroutine really waits: it
+			// releases L, the queued goroutines run, and if one of them signalled the
+			// condition it takes L again and returns; otherwise (and always for a queued
+			// goroutine itself) the wait never ends on this path.
+			c := a[0].(Ptr).c
+			if e.inGoroutine == 0 && len(e.goQueue) > 0 {
+				g := e.ghostOf(c)
+				if l, ok := e.condLocker(c); ok {
+					before := g.signals
+					e.callIfaceMethod(l, "Unlock")
+					g.waiters++
+					e.runQueued()
+					if g.signals > before {
+						if g.waiters > 0 {
+							g.waiters--
+						}
+						e.callIfaceMethod(l, "Lock")
+						return nil
+					}
+				}
+			}
 			e.block("sync.Cond.Wait")
 			return nil
 		},
